@@ -91,8 +91,8 @@ func gTx(t ast.Transaction) string {
 	for _, p := range t.Postings {
 		ps = append(ps, gPosting(p))
 	}
-	return fmt.Sprintf("(mkTx %s %s %s %s %s %s %s %s %s %s %s)", gDate(t.Date), d2, gStatus(t.Status), gBytes(t.Code), gBytes(t.Description),
-		gBytes(t.Payee), gBytes(t.Note), gList(ps), gTags(t.Tags), gComments(t.Comments), gRng(t.Range))
+	return fmt.Sprintf("(mkTx %s %s %s %s %s %s %s %s %s %s %s %s)", gDate(t.Date), d2, gStatus(t.Status), gBytes(t.Code), gBytes(t.Description),
+		gBytes(t.Payee), gBytes(t.Note), gRng(t.PayeeRange), gList(ps), gTags(t.Tags), gComments(t.Comments), gRng(t.Range))
 }
 func gSubdirs(m map[string]string) string {
 	var keys []string
